@@ -270,14 +270,14 @@ impl SendRateComp {
                         // Continue slow start doubling, see section 4.3, step 5
                         if now_ms - time_last_doubled_ms >= rtt_ms {
                             state.time_last_doubled_ms = Some(now_ms);
-                            self.send_rate = self.send_rate.saturating_mul(2).min(recv_limit).max(initial_rate);
+                            self.send_rate = self.send_rate.saturating_mul(2).min(recv_limit).max(initial_rate).max(MINIMUM_RATE);
                             //println!("SS: doubling: new send rate: {} (limit {}, rl: {}, li: {})",
                             //    self.send_rate, recv_limit, rate_limited, loss_increase);
                         }
                     } else {
                         // Reinitialize slow start phase after first feedback, see section 4.2
                         state.time_last_doubled_ms = Some(now_ms);
-                        self.send_rate = initial_rate;
+                        self.send_rate = initial_rate.max(MINIMUM_RATE);
                         //println!("SS: first feedback: new send rate: {} (limit {}, rl: {}, li: {})",
                         //    self.send_rate, recv_limit, rate_limited, loss_increase);
                     }
